@@ -31,14 +31,105 @@ def split(it, b, n):
         res = (b'', b)
         cache[key] = res
         return res
+    # structural pass: keep the concatenation structure of the term wherever the cut position
+    # provably coincides with a boundary between its parts (entailment checks by the solver)
+    parts = _flatten(bt, p.defs)
+    if not parts:
+        res = (b'', b'')
+        cache[key] = res
+        return res
+    # purely syntactic cut: concrete n and a prefix of parts with statically known lengths
+    if cn is not None:
+        acc = 0
+        j = 0
+        while j < len(parts) and acc < cn:
+            sl = static_len(it, parts[j])
+            if sl is None:
+                break
+            acc += sl
+            j += 1
+        if acc == cn:
+            res = (smt.concat(parts[:j]) if j else b'', smt.concat(parts[j:]) if j < len(parts) else b'')
+            cache[key] = res
+            return res
+    if len(parts) > 1 and p.must(nt >= 0):
+        taken = []
+        consumed = z3.IntVal(0)
+        i = 0
+        while i < len(parts):
+            part = parts[i]
+            lp = z3.Length(part)
+            if p.must(consumed + lp <= nt):
+                taken.append(part)
+                consumed = z3.simplify(consumed + lp)
+                i += 1
+                continue
+            break
+        if i == len(parts):
+            res = (smt.concat(taken), b'')
+            cache[key] = res
+            return res
+        if p.must(consumed == nt):
+            res = (smt.concat(taken) if taken else b'', smt.concat(parts[i:]))
+            cache[key] = res
+            return res
+        # cut inside parts[i] (or not provably at a boundary): skolemise that part only
+        part = parts[i]
+        want = z3.simplify(nt - consumed)
+        h1 = p.fresh_bytes('h')
+        r1 = p.fresh_bytes('r')
+        lp = z3.Length(part)
+        if p.must(want <= lp):
+            p.assume(part == z3.Concat(h1, r1), note=False)
+            p.assume(z3.Length(h1) == want)
+            res = (smt.concat(taken + [h1]), smt.concat([r1] + parts[i + 1:]))
+            cache[key] = res
+            return res
     h = p.fresh_bytes('h')
     r = p.fresh_bytes('r')
     ln = z3.Length(bt)
-    p.assume(bt == z3.Concat(h, r))
+    p.assume(bt == z3.Concat(h, r), note=False)
     p.assume(z3.Length(h) == z3.If(nt <= 0, 0, z3.If(nt <= ln, nt, ln)))
+    # arithmetic consequences, stated explicitly for the sequence-free solver
+    p.facts.add(z3.And(ln >= 0, z3.Length(r) >= 0, ln == z3.Length(h) + z3.Length(r)))
     res = (h, r)
     cache[key] = res
     return res
+
+
+def static_len(it, part):
+    """length of a part known without the solver: in-range be_n terms (certified when packed),
+    units, 16-byte padded fields"""
+    cert = it.p.ghost.get('_be_ok', {}).get(part.get_id())
+    if cert is not None:
+        return cert[0]
+    if z3.is_app(part):
+        k = part.decl().kind()
+        if k == z3.Z3_OP_SEQ_UNIT:
+            return 1
+        if k == z3.Z3_OP_SEQ_EMPTY:
+            return 0
+        if k == z3.Z3_OP_UNINTERPRETED and part.decl().name() in ('pad16', 'spad16'):
+            return 16
+    return None
+
+
+def _flatten(t, defs=None, depth=0):
+    """parts of a concatenation; atoms with a recorded defining equation (path facts of the form
+    atom == structured term) are replaced by their definition"""
+    t = z3.simplify(t)
+    if z3.is_app(t) and t.decl().kind() == z3.Z3_OP_SEQ_CONCAT:
+        out = []
+        for i in range(t.num_args()):
+            out.extend(_flatten(t.arg(i), defs, depth))
+        return out
+    if z3.is_app(t) and t.decl().kind() == z3.Z3_OP_SEQ_EMPTY:
+        return []
+    if defs and depth < 12:
+        d = defs.get(t.get_id())
+        if d is not None:
+            return _flatten(d, defs, depth + 1)
+    return [t]
 
 
 def bytes_slice(it, b, lo, hi):
@@ -72,6 +163,17 @@ def bytes_index(it, b, i):
     ti = int_term(i)
     if isinstance(i, int) and i < 0:
         raise Unsupported('negative index into symbolic bytes')
+    if isinstance(i, int) and i == 0:
+        # first byte of a structurally known term
+        parts = _flatten(bt, p.defs)
+        if parts:
+            cert = p.ghost.get('_be_ok', {}).get(parts[0].get_id())
+            if cert is not None and cert[0] == 1:
+                cv = smt.as_concrete_int(cert[1])
+                return cv if cv is not None else cert[1]
+            f = parts[0]
+            if z3.is_app(f) and f.decl().kind() == z3.Z3_OP_SEQ_UNIT and z3.is_bv_value(f.arg(0)):
+                return f.arg(0).as_long()
     if p.branch(z3.Or(ti < 0, ti >= z3.Length(bt))):
         it.raise_exc('IndexError', 'index out of range')
     return p.facts.byte_at(bt, ti)
@@ -93,6 +195,7 @@ def stream_read(it, st, n=None):
             h, r = split(it, st.rem, n)
     else:
         h, r = split(it, st.rem, n)
+    st.last_read = (st.before, st.rem, h)
     st.before = it.binop(__import__('ast').Add(), st.before, h)
     st.rem = r
     return h
@@ -112,6 +215,20 @@ def stream_seek(it, st, off, whence=0):
         pos = it.binop(ast.Add(), blen(it, total), off)
     else:
         raise Unsupported('seek whence %r' % (whence,))
+    # stepping back exactly over the last read restores the previous state (keeps term structure)
+    last = getattr(st, 'last_read', None)
+    st.last_read = None
+    if whence == 1 and isinstance(off, int) and off < 0 and last is not None:
+        lb, lr, lh = last
+        hl = blen(it, lh)
+        parts = _flatten(bytes_term(lh), p.defs)
+        sl = [static_len(it, q) for q in parts]
+        static_total = sum(sl) if all(x is not None for x in sl) else None
+        if (isinstance(hl, int) and hl == -off) or static_total == -off or \
+                (not isinstance(hl, int) and p.must(int_term(hl) == -off)):
+            st.before, st.rem = lb, lr
+            st.last_read = None
+            return pos
     if smt.is_z3(pos):
         if not p.must(pos >= 0):
             raise Unsupported('seek to possibly negative position')
@@ -153,4 +270,5 @@ def stream_write(it, st, data):
         raise Unsupported('write in the middle of a stream')
     st.before = it.binop(ast.Add(), st.before, data)
     st.rem = b''
+    st.last_read = None
     return blen(it, data)
